@@ -1,5 +1,5 @@
 \* generation (C16, quick, exhaustive): every truncation and every single-token deletion of all
-\* seven seed kernels
+\* eight seed kernels
 SPECIFICATION Spec
 CONSTANTS
   MaxNodes = 0
@@ -9,7 +9,7 @@ CONSTANTS
   MaxDecor = 0
   DefaultHdr = "lt"
   Seeds <- MCSeeds
-  SeedIdx = {1,2,3,4,5,6,7}
+  SeedIdx = {1,2,3,4,5,6,7,8}
   Puncts = {}
   Words = {}
   Brackets = {}
